@@ -172,6 +172,175 @@ Theorem C14_vector_fill_refines : forall s v x,
 Proof. exact vector_fill_refines. Qed.
 Print Assumptions C14_vector_fill_refines.
 
+(* make-vector with a fill: a NEW vector whose every slot is the fill argument itself.
+   (Sizes beyond MAX_VEC make the Rust `vec![fill; len]` abort: C06.) *)
+Theorem C14_make_vector_refines : forall s k fill,
+  values_are_refs s -> val_ok s k -> val_ok s fill -> called_with s [k; fill] ->
+  match aindex (absv s k) with
+  | Some i =>
+      i <= MAX_VEC ->
+      exists p vid s', call_builtin make_vector s = ROk (VPtr p) s' /\
+        absv s' (VPtr p) = ALoc (LVec vid) /\ a_vec (abs s) vid = None /\
+        a_vec (abs s') vid = Some (repeat (absv s fill) (N.to_nat i)) /\
+        pres s s' /\ values_are_refs s' /\ ~ live (hp s) p /\ target_ok s' p
+  | None => exists s', call_builtin make_vector s = RErr E_OTHER [] s'
+  end.
+Proof. exact make_vector_refines. Qed.
+Print Assumptions C14_make_vector_refines.
+
+(* vector-copy with a start index (the end argument is excluded by the property's
+   quantifier): a NEW vector holding the suffix; start = length gives #() (fix F2) *)
+Theorem C14_vector_copy_refines : forall s v k,
+  values_are_refs s -> val_ok s v -> val_ok s k -> called_with s [v; k] ->
+  match absv s v, aindex (absv s k) with
+  | ALoc (LVec vid0), Some i =>
+      exists xs, a_vec (abs s) vid0 = Some xs /\
+        if i <=? N.of_nat (length xs) then
+          exists p vid s', call_builtin vector_copy s = ROk (VPtr p) s' /\
+            absv s' (VPtr p) = ALoc (LVec vid) /\ a_vec (abs s) vid = None /\
+            a_vec (abs s') vid = Some (skipn (N.to_nat i) xs) /\
+            pres s s' /\ values_are_refs s' /\ ~ live (hp s) p /\ target_ok s' p
+        else exists s', call_builtin vector_copy s = RErr E_OTHER [] s'
+  | _, _ => exists s', call_builtin vector_copy s = RErr E_OTHER [] s'
+  end.
+Proof. exact vector_copy_refines. Qed.
+Print Assumptions C14_vector_copy_refines.
+
+(* vector-copy! (fixes F2, F8 and the overlap fix).  [vmc_post s r start end to at from]:
+   with from, to vectors and at an index, the call succeeds iff
+   at <= |to|, start <= end <= |from| and at + (end - start) <= |to|, and then [copied]:
+   positions at .. at+(end-start) of to hold the OLD elements start .. end of from (also
+   when to and from are the same vector), every other position, every other vector and
+   every pair is unchanged; otherwise an error.  No usize underflow on any input. *)
+Theorem C14_vector_copy_mut3 : forall s tov atv fromv,
+  values_are_refs s -> val_ok s tov -> val_ok s atv -> val_ok s fromv ->
+  called_with s [tov; atv; fromv] ->
+  vmc_post s (vector_mut_copy s) None None tov atv fromv.
+Proof. exact vector_copy_mut_refines3. Qed.
+Print Assumptions C14_vector_copy_mut3.
+
+Theorem C14_vector_copy_mut4 : forall s tov atv fromv startv,
+  values_are_refs s -> val_ok s tov -> val_ok s atv -> val_ok s fromv -> val_ok s startv ->
+  called_with s [tov; atv; fromv; startv] ->
+  match aindex (absv s startv) with
+  | Some b => vmc_post s (vector_mut_copy s) (Some b) None tov atv fromv
+  | None => exists s', vector_mut_copy s = RErr E_OTHER [] s'
+  end.
+Proof. exact vector_copy_mut_refines4. Qed.
+Print Assumptions C14_vector_copy_mut4.
+
+Theorem C14_vector_copy_mut5 : forall s tov atv fromv startv endv,
+  values_are_refs s -> val_ok s tov -> val_ok s atv -> val_ok s fromv ->
+  val_ok s startv -> val_ok s endv ->
+  called_with s [tov; atv; fromv; startv; endv] ->
+  match aindex (absv s endv), aindex (absv s startv) with
+  | Some e, Some b => vmc_post s (vector_mut_copy s) (Some b) (Some e) tov atv fromv
+  | _, _ => exists s', vector_mut_copy s = RErr E_OTHER [] s'
+  end.
+Proof. exact vector_copy_mut_refines5. Qed.
+Print Assumptions C14_vector_copy_mut5.
+
+(* the meaning of [vmc_post] spelled out (so that the three statements above cannot be
+   weakened by editing a definition in Proofs/) *)
+Theorem C14_vmc_post_meaning : forall s r start end_ tov atv fromv,
+  vmc_post s r start end_ tov atv fromv <->
+  match absv s fromv, aindex (absv s atv), absv s tov with
+  | ALoc (LVec fid), Some at_, ALoc (LVec tid) =>
+      exists fxs txs, a_vec (abs s) fid = Some fxs /\ a_vec (abs s) tid = Some txs /\
+        let sv := match start with Some x => x | None => 0 end in
+        let ev := match end_ with Some x => x | None => N.of_nat (length fxs) end in
+        if (at_ <=? N.of_nat (length txs)) && (sv <=? N.of_nat (length fxs)) &&
+           (ev <=? N.of_nat (length fxs)) && (sv <=? ev) &&
+           (at_ + (ev - sv) <=? N.of_nat (length txs))
+        then exists s' txs', r = ROk VVoid s' /\
+               a_vec (abs s') tid = Some txs' /\
+               (length txs' = length txs /\
+                forall j, nth_error txs' j =
+                  if ((N.to_nat at_ <=? j) && (j <? N.to_nat at_ + N.to_nat (ev - sv)))%nat
+                  then nth_error fxs (N.to_nat sv + (j - N.to_nat at_)) else nth_error txs j) /\
+               (forall u, u <> tid -> a_vec (abs s') u = a_vec (abs s) u) /\
+               (forall q, a_pair (abs s') q = a_pair (abs s) q) /\
+               hp s' = hp s /\ values_are_refs s'
+        else exists s', r = RErr E_OTHER [] s'
+  | _, _, _ => exists s', r = RErr E_OTHER [] s'
+  end.
+Proof. intros. reflexivity. Qed.
+Print Assumptions C14_vmc_post_meaning.
+
+(* ------------------------------------------------- lists: finite chains of pairs *)
+(* [achain (abs s) v xs e]: v is a finite chain of pairs with elements xs ending in e
+   (e = () for a proper list).  Circular lists have no chain and are outside these
+   statements (C06).  A fuel proportional to the length suffices, whatever the index. *)
+Theorem C14_list_tail_refines : forall fuel s v k xs e,
+  values_are_refs s -> val_ok s v -> val_ok s k -> called_with s [v; k] ->
+  achain (abs s) (absv s v) xs e -> (length xs + 1 < fuel)%nat ->
+  match aindex (absv s k) with
+  | Some i =>
+      if (i <=? N.of_nat (length xs)) && is_listy (absv s v) then
+        exists r s', list_tail fuel s = ROk r s' /\
+          atail (abs s) (absv s v) (N.to_nat i) (absv s r) /\ val_ok s r /\
+          hp s' = hp s /\ st s' = st s
+      else render_fail (list_tail fuel s)
+  | None => exists s', list_tail fuel s = RErr E_OTHER [] s'
+  end.
+Proof. exact list_tail_refines. Qed.
+Print Assumptions C14_list_tail_refines.
+
+Theorem C14_list_ref_refines : forall fuel s v k xs e,
+  values_are_refs s -> val_ok s v -> val_ok s k -> called_with s [v; k] ->
+  achain (abs s) (absv s v) xs e -> (length xs + 1 < fuel)%nat ->
+  match aindex (absv s k) with
+  | Some i =>
+      match nth_error xs (N.to_nat i) with
+      | Some x => exists r s', list_ref fuel s = ROk r s' /\ absv s r = x /\ val_ok s r /\
+                               hp s' = hp s /\ st s' = st s
+      | None => render_fail (list_ref fuel s)
+      end
+  | None => exists s', list_ref fuel s = RErr E_OTHER [] s'
+  end.
+Proof. exact list_ref_refines. Qed.
+Print Assumptions C14_list_ref_refines.
+
+(* list->vector: a NEW vector with exactly the elements (the same abstract values, i.e.
+   the same locations); an improper list is an error (fix F16) *)
+Theorem C14_list_to_vector_refines : forall fuel s v xs e,
+  values_are_refs s -> val_ok s v -> called_with s [v] ->
+  achain (abs s) (absv s v) xs e -> (length xs < fuel)%nat ->
+  (e = AImm VNil ->
+     exists p vid s', call_builtin (list_to_vector fuel) s = ROk (VPtr p) s' /\
+       absv s' (VPtr p) = ALoc (LVec vid) /\ a_vec (abs s) vid = None /\
+       a_vec (abs s') vid = Some xs /\
+       pres s s' /\ values_are_refs s' /\ ~ live (hp s) p /\ target_ok s' p) /\
+  (e <> AImm VNil -> render_fail (call_builtin (list_to_vector fuel) s)).
+Proof. exact list_to_vector_refines. Qed.
+Print Assumptions C14_list_to_vector_refines.
+
+(* vector->list and reverse: a NEWLY ALLOCATED proper list ([aprefix ... locs xs ()] with
+   every location in [locs] not live before) holding the same element values *)
+Theorem C14_vector_to_list_refines : forall s v,
+  values_are_refs s -> val_ok s v -> called_with s [v] ->
+  match absv s v with
+  | ALoc (LVec vid) =>
+      exists xs r s' locs, a_vec (abs s) vid = Some xs /\
+        call_builtin vector_to_list s = ROk r s' /\
+        aprefix (abs s') (absv s' r) locs xs (AImm VNil) /\ fresh_in s locs /\
+        pres s s' /\ values_are_refs s' /\ val_ok s' r
+  | _ => exists s', call_builtin vector_to_list s = RErr E_OTHER [] s'
+  end.
+Proof. exact vector_to_list_refines. Qed.
+Print Assumptions C14_vector_to_list_refines.
+
+Theorem C14_reverse_refines : forall fuel s v xs e,
+  values_are_refs s -> val_ok s v -> called_with s [v] ->
+  achain (abs s) (absv s v) xs e -> (length xs + 1 < fuel)%nat ->
+  (e = AImm VNil ->
+     exists r s' locs, call_builtin (reverse fuel) s = ROk r s' /\
+       aprefix (abs s') (absv s' r) locs (rev xs) (AImm VNil) /\ fresh_in s locs /\
+       pres s s' /\ values_are_refs s' /\ val_ok s' r) /\
+  (e <> AImm VNil -> render_fail (call_builtin (reverse fuel) s)).
+Proof. exact reverse_refines. Qed.
+Print Assumptions C14_reverse_refines.
+
 (* ------------------------------------------------- store / retrieve identity *)
 Theorem C14_identity_cons : forall fuel s a b,
   values_are_refs s -> val_ok s a -> val_ok s b -> called_with s [a; b] ->
